@@ -24,6 +24,10 @@ def assemble(rng, changes, k_fault, mutate):
     mutate(lines) -> (new lines, (line index within change, col))"""
     lines, fault_at = [], None
     for k, ch in enumerate(changes):
+        if k == 0 and rng.random() < 0.4:
+            # blank and whitespace-only lines at the very start of the file
+            for _ in range(rng.randint(1, 3)):
+                lines.append(rng.choice([b"", b"", b"  ", b"\t"]))
         for _ in range(rng.randint(0, 3)):
             lines.append(rng.choice(FILLER))
         if k == 0:
@@ -173,6 +177,30 @@ def main():
                 if ((line, col) not in mp) if col is not None else (not set(ip) & set(mp)):
                     ck.mismatch("Meta/PosMap model predicts %s, gopatch reports %r (fault %s expected at %s:%s)" % (merrs, err[:160], fname, line, col),
                                 rep, "corr:meta (Model/Meta.v + PosMap.v vs parse/meta.go, engine/meta.go)")
+    # the command line reads patch files through its own loader: the same position must come out
+    def cli_one(case):
+        fname, src, fault, kf, n = case
+        d = vlib.scratch("c19c")
+        try:
+            open(os.path.join(d, "my.patch"), "wb").write(src)
+            open(os.path.join(d, "a.go"), "wb").write(b"package p\n\nfunc f() { foo() }\n")
+            r1 = vlib.run_gopatch(["-p", "my.patch", "a.go"], d)
+            r2 = vlib.run_gopatch(["a.go"], d, stdin=src)
+            return r1, r2
+        finally:
+            shutil.rmtree(d, ignore_errors=True)
+    faulty = [c for c in cases if c[0] not in ("control", "line-directive") and c[2][1] is not None]
+    for (fname, src, fault, kf, n), (r1, r2) in zip(faulty, vlib.pmap(cli_one, faulty)):
+        line, col, kind = fault
+        ck.count(("cli-position", fname, src))
+        for how, (rc, out, err), nm in (("-p my.patch", r1, "my.patch"),):
+            if rc == 0 or ("%s:%d:%d" % (nm, line, col)).encode() not in err:
+                ck.violation("command line (%s): the diagnostic for %s does not point at the offending token: expected %s:%d:%d, exit %d, stderr %r"
+                             % (how, fname, nm, line, col, rc, err[:200]), {"fault": fname, "patch": src.decode("utf-8", "replace"), "expected": fault})
+        rc, out, err = r2
+        if rc == 0 or (":%d:%d" % (line, col)).encode() not in err:
+            ck.violation("command line (patch on stdin): the diagnostic for %s does not give the offending token's line and column %d:%d: exit %d, stderr %r"
+                         % (fname, line, col, rc, err[:200]), {"fault": fname, "patch": src.decode("utf-8", "replace"), "expected": fault})
     # nothing is rewritten when the patch is rejected
     root = vlib.scratch("c19")
     try:
